@@ -207,7 +207,33 @@ def native_replay(o=None):
                 or not np.isclose(out['gammadet_x1y1z0'][row], ref[-1, -1, 0]):
             bad = True
             lines.append(f'row {row} (it={it}): gammadet / its estimates do not belong to this step')
-    return bad, '\n'.join(lines) or 'real over_time on 3 steps given out of order: every row consistent'
+    # a user column that is not a documented key, read by a custom variable; and a request split over two calls in which the
+    # second custom variable reads the column produced by the first
+    chi = {sv: (sv - 0.5) * (1 + x) for sv in steps}
+
+    def with_chi(rel):
+        return rel['gammadet'] * rel.data['chi'] if 'chi' in rel.data else rel['gammadet'] * 0 + 1e30
+
+    def twice(rel):
+        return 2.0 * rel.data['detchi'] if 'detchi' in rel.data else rel['gammadet'] * 0 - 1e30
+    base = lambda: {'it': [itof[sv] for sv in steps], 'gammadown3': [mk(sv) for sv in steps], 'chi': [chi[sv] for sv in steps]}
+    try:
+        one = aurel.over_time(base(), fd, vars=[{'detchi': with_chi}, {'twice': twice}], estimates=['max'], verbose=False)
+        two = aurel.over_time(base(), fd, vars=[{'detchi': with_chi}], estimates=['max'], verbose=False)
+        two = aurel.over_time(two, fd, vars=[{'twice': twice}], estimates=['max'], verbose=False)
+        for nm, tab in (('one call', one), ('two calls', two)):
+            for row, it in enumerate(tab['it']):
+                sv = {5: 0, 20: 1, 100: 2}[int(it)]
+                ref = aurel.maths.determinant3(mk(sv)) * chi[sv]
+                if not np.allclose(tab['detchi'][row], ref) or not np.allclose(tab['twice'][row], 2 * ref) or not np.isclose(tab['twice_max'][row], (2 * ref).max()) \
+                        or not np.allclose(tab['chi'][row], chi[sv]):
+                    bad = True
+                    lines.append(f'{nm}: row {row} (it={it}): custom variables reading the user column chi / the earlier custom column are not computed from this step\'s inputs '
+                                 f'(detchi max {np.max(tab["detchi"][row]):.4g} vs {ref.max():.4g}; twice max {np.max(tab["twice"][row]):.4g} vs {(2 * ref).max():.4g})')
+    except Exception as e:
+        bad = True
+        lines.append(f'over_time with a user column raised {type(e).__name__}: {e}')
+    return bad, '\n'.join(lines) or 'real over_time on 3 steps given out of order (built-in + custom variables reading a user column, one call and two calls): every row consistent'
 
 
 def run(R):
